@@ -88,6 +88,122 @@ def dartParamTy (env : Env) : TyName → Option DTy
   | .write => some .opaquePtr
   | _ => none
 
+/-! ### Dart: the full native signature (`gen_type_name_ffi`, `gen_return_type_name_ffi`, `gen_result`) -/
+
+/-- a native type of a Dart `@ffi.Native` signature -/
+inductive NTy where
+  | prim (ffi : String)
+  | opaquePtr
+  | structTy (n : String)
+  | enumTy
+  | slice (name : String)
+  | void
+  | result (ok err : Option NTy) (okName errName : String)   -- `_Result{okName}{errName}`; arms without storage are absent
+  deriving Repr, Inhabited
+
+/-- `fmt_type_as_ident`: the opaque pointer becomes `Opaque`, `ffi.` and `_` disappear -/
+def identOf (name : String) : String :=
+  ((name.replace "ffi.Pointer<ffi.Opaque>" "Opaque").replace "ffi." "").replace "_" ""
+
+def NTy.name : NTy → String
+  | .prim f => f
+  | .opaquePtr => "ffi.Pointer<ffi.Opaque>"
+  | .structTy n => "_" ++ n ++ "Ffi"
+  | .enumTy => "ffi.Int32"
+  | .slice n => n
+  | .void => "ffi.Void"
+  | .result _ _ a b => "_Result" ++ a ++ b
+
+def nAbiSimple : NTy → Option Abi
+  | .prim f => dartFfiAbi f
+  | .opaquePtr => some [.ptr]
+  | .structTy n => some [.named n]
+  | .enumTy => some [.int 32 true]
+  | .slice _ => some viewAbi
+  | .void => some []
+  | .result .. => none
+
+def nArmAbi : Option NTy → Option (List Abi)
+  | none => some []
+  | some t => (nAbiSimple t).map fun a => [a]
+
+/-- a result record: `{ union { ok; err }, @ffi.Bool() isOk }` (templates/dart/result.dart.jinja) -/
+def nAbi : NTy → Option Abi
+  | .result ok err _ _ =>
+    match nArmAbi ok, nArmAbi err with
+    | some a, some b => some (mkResult (a ++ b))
+    | _, _ => none
+  | t => nAbiSimple t
+
+def dartSliceName : TyName → Option String
+  | .strRef _ e _ => some (match e with | .unvalidatedUtf16 => "_SliceUtf16" | _ => "_SliceUtf8")
+  | .strSlice e _ => some (match e with | .unvalidatedUtf16 => "_SliceSliceUtf16" | _ => "_SliceSliceUtf8")
+  | .primSlice _ p _ => dartPrimSlice.lookup (primKey p)
+  | _ => none
+
+/-- `gen_type_name_ffi` after lowering; an optional non-pointer is a result record with a `Void` error -/
+def dartTy (env : Env) : TyName → Option NTy
+  | .prim p => (dartPrim p).map .prim
+  | .ordering => (dartPrim .i8).map .prim
+  | .named n =>
+    match env.get n with
+    | some (.struct ..) => some (.structTy n)
+    | some .enumTy => some .enumTy
+    | _ => none
+  | .ref _ _ (.named n) => if isOpaqueName env n then some .opaquePtr else none
+  | .box (.named n) => if isOpaqueName env n then some .opaquePtr else none
+  | .opt t _ =>
+    match t with
+    | .ref _ _ (.named n) => if isOpaqueName env n then some .opaquePtr else none
+    | .box (.named n) => if isOpaqueName env n then some .opaquePtr else none
+    | .prim p => (dartPrim p).map fun f => .result (some (.prim f)) none (identOf f) "Void"
+    | .named n =>
+      match env.get n with
+      | some (.struct ..) => some (.result (some (.structTy n)) none (identOf ("_" ++ n ++ "Ffi")) "Void")
+      | some .enumTy => some (.result (some .enumTy) none "Int32" "Void")
+      | _ => none
+    | .strRef lt e s => (dartSliceName (.strRef lt e s)).map fun nm => .result (some (.slice nm)) none (identOf nm) "Void"
+    | .primSlice l p s => (dartSliceName (.primSlice l p s)).map fun nm => .result (some (.slice nm)) none (identOf nm) "Void"
+    | .strSlice e s => (dartSliceName (.strSlice e s)).map fun nm => .result (some (.slice nm)) none (identOf nm) "Void"
+    | _ => none
+  | .strRef lt e s => (dartSliceName (.strRef lt e s)).map .slice
+  | .primSlice l p s => (dartSliceName (.primSlice l p s)).map .slice
+  | .strSlice e s => (dartSliceName (.strSlice e s)).map .slice
+  | _ => none
+
+/-- an arm of a result: (the member, if it has storage; the name used in the record's name) -/
+def dartArm (env : Env) (t : TyName) : Option (Option NTy × String) :=
+  if isUnit t then some (none, "Void")
+  else (dartTy env t).map fun d => (if isZst env t then none else some d, identOf d.name)
+
+def dartRetTy (env : Env) : Option TyName → Option NTy
+  | none => some .void
+  | some .unit => some .void
+  | some (.res ok err _) =>
+    match dartArm env ok, dartArm env err with
+    | some a, some b => some (.result a.1 b.1 a.2 b.2)
+    | _, _ => none
+  | some (.opt v sd) =>
+    match v with
+    | .box _ | .ref .. => dartTy env (.opt v sd)
+    | v => (dartArm env v).map fun a => .result a.1 none a.2 "Void"
+  | some t => dartTy env t
+
+/-- the `@ffi.Native<…>` line of a method -/
+def dartNativeText (env : Env) (pfx owner : String) (m : AMethod) : Option String :=
+  let abi := abiName pfx owner m.name
+  let selfP : Option (List NTy) := match m.self with
+    | some s => (dartTy env (selfTyName owner s)).map fun c => [c]
+    | none => some []
+  -- the write buffer is not a declared parameter in the HIR; it is appended as a pointer
+  let ps := m.params.filter fun p => match p.2 with | .write => false | _ => true
+  let hasWrite := m.params.any fun p => match p.2 with | .write => true | _ => false
+  match selfP, optMapM (fun p : String × TyName => dartTy env p.2) ps, dartRetTy env m.ret with
+  | some a, some b, some r =>
+    let all := a ++ b ++ (if hasWrite then [NTy.opaquePtr] else [])
+    some ("@ffi.Native<" ++ r.name ++ " Function(" ++ ", ".intercalate (all.map NTy.name) ++ ")>(isLeaf: true, symbol: '" ++ abi ++ "')")
+  | _, _, _ => none
+
 /-! ### Kotlin: `gen_native_type_name` over the accepted grammar -/
 
 inductive KTy where
@@ -130,11 +246,14 @@ def ktParamTy (env : Env) : TyName → Option KTy
   | .write => some .pointer
   | _ => none
 
-/-- an enum is `int`-sized on both sides; the sign of a C enum's underlying type is the compiler's choice -/
+/-- an enum is `int`-sized on both sides; the sign of a C enum's underlying type is the compiler's choice:
+    descriptions are compared after reading every C enum as a 32-bit integer -/
+def normTok : Tok → Tok
+  | .cenum _ => .int 32 true
+  | t => t
+
 def sameWire (a b : Option Abi) : Bool :=
-  match a, b with
-  | some [.cenum _], some [.int 32 _] => true
-  | a, b => a == b
+  a.map (List.map normTok) == b.map (List.map normTok)
 
 /-! ### driver -/
 
@@ -150,6 +269,13 @@ def runLine (line : String) : String :=
       let (name, abi) := if b == "dart" then (dartPrim p, (dartPrim p).bind dartFfiAbi) else (ktPrim p, (ktPrim p).bind jnaAbi)
       if abi == some (rustPrimAbi p) then "agree " ++ name.getD "?"
       else "mismatch " ++ name.getD "?" ++ " binding=" ++ showAbi' abi ++ " rust=" ++ showAbi' (some (rustPrimAbi p))
+  | some (.list (.atom "c07dart" :: .atom pfx :: decls)) =>
+    match optMapM parseDeclA decls with
+    | some ds =>
+      let env : Env := ds.map fun t => (t.name, t.def_)
+      " ;; ".intercalate (ds.flatMap fun d => d.methods.map fun m =>
+        "dart/" ++ d.name ++ ".g.dart => " ++ (dartNativeText env pfx d.name m).getD "<unrenderable>")
+    | none => "bad-case"
   | _ => "bad-case"
 
 end DiplomatModel.DartKt
